@@ -111,6 +111,10 @@ Theorem C12_chain_SO3_exp eps x y z dx dy dz j : 0 < eps -> x * x + y * y + z * 
   is_derive (fun h => entry 0 (@run_op RS eps GSO3 OExp [] 0%Z (at_h h [[x; y; z]] [[dx; dy; dz]])) 0 j) 0
     (snd (entry (0, 0) (@run_op (DS RS) (eps, 0) GSO3 OExp [] 0%Z (seed [[x; y; z]] [[dx; dy; dz]])) 0 j)).
 Proof. exact (chain_SO3_exp eps x y z dx dy dz j). Qed.
+Theorem C12_chain_SO3_log eps x y z w dx dy dz dw j : 0 < eps -> eps < x * x + y * y + z * z -> 0 < w -> (j < 3)%nat ->
+  is_derive (fun h => entry 0 (@run_op RS eps GSO3 OLog [] 0%Z (at_h h [[x; y; z; w]] [[dx; dy; dz; dw]])) 0 j) 0
+    (snd (entry (0, 0) (@run_op (DS RS) (eps, 0) GSO3 OLog [] 0%Z (seed [[x; y; z; w]] [[dx; dy; dz; dw]])) 0 j)).
+Proof. exact (chain_SO3_log eps x y z w dx dy dz dw j). Qed.
 Theorem C12_chain_SE3_exp eps a b c x y z da db dc dx dy dz j : 0 < eps -> x * x + y * y + z * z <> eps -> (j < 7)%nat ->
   is_derive (fun h => entry 0 (@run_op RS eps GSE3 OExp [] 0%Z (at_h h [[a; b; c; x; y; z]] [[da; db; dc; dx; dy; dz]])) 0 j) 0
     (snd (entry (0, 0) (@run_op (DS RS) (eps, 0) GSE3 OExp [] 0%Z (seed [[a; b; c; x; y; z]] [[da; db; dc; dx; dy; dz]])) 0 j)).
